@@ -42,7 +42,16 @@ func runMultiSite(env *cliEnv, c J, emit func(J)) {
 	if asStr(c["cmd"]) == "insert" {
 		args = append(args, "@"+string(intsToBytes(c["guest"])))
 	}
-	res := env.run(dir, asStr(c["cmd"]), args, inName, "stdout", true, 0)
+	stdin := inName
+	if asStr(c["cmd"]) == "infix" {
+		// gts infix <locator> <host file>  <  guest
+		guestName := "guest-" + id
+		ioutil.WriteFile(filepath.Join(env.inputs, guestName), []byte(">guest\n"+string(intsToBytes(c["guest"]))+"\n"), 0644)
+		defer os.Remove(filepath.Join(env.inputs, guestName))
+		args = append(args, "{file:"+inName+"}")
+		stdin = guestName
+	}
+	res := env.run(dir, asStr(c["cmd"]), args, stdin, "stdout", true, 0)
 	ev["status"] = res.status
 	se := res.stderr
 	if len(se) > 160 {
